@@ -180,89 +180,89 @@ macro_rules! h {
 }
 
 // ---- Model::init directly: 14 models x 3 interface kinds; `true` = supported today (golden table)
-//@ props=C11,C05,C12,C13 pick=direct:6@C12 inst="ILI9341Rgb565 x Serial4Line" bounds="all options (2 colour orders x 8 orientations x 2 inversions x 4 refresh orders x valid size/offset) x symbolic index of the failing Interface call" timeout=600 mem=4
+//@ props=C11,C05,C12,C13 inst="ILI9341Rgb565 x Serial4Line" bounds="all options (2 colour orders x 8 orientations x 2 inversions x 4 refresh orders x valid size/offset) x symbolic index of the failing Interface call" timeout=600 mem=4
 h!(c11_d_ili9341_565_s, 20, direct_h::<_, u8, 0>(ILI9341Rgb565, true));
-//@ props=C11,C05,C12,C13 pick=direct:6@C12 inst="ILI9341Rgb565 x Parallel8Bit" bounds="same" timeout=600 mem=4
+//@ props=C11,C05,C12,C13 inst="ILI9341Rgb565 x Parallel8Bit" bounds="same" timeout=600 mem=4
 h!(c11_d_ili9341_565_p8, 20, direct_h::<_, u8, 1>(ILI9341Rgb565, true));
-//@ props=C11,C05,C12,C13 pick=direct:6@C12 inst="ILI9341Rgb565 x Parallel16Bit" bounds="same" timeout=600 mem=4
+//@ props=C11,C05,C12,C13 inst="ILI9341Rgb565 x Parallel16Bit" bounds="same" timeout=600 mem=4
 h!(c11_d_ili9341_565_p16, 20, direct_h::<_, u16, 2>(ILI9341Rgb565, true));
-//@ props=C11,C05,C12,C13 pick=direct:6@C12 inst="ILI9341Rgb666 x Serial4Line" bounds="same" timeout=600 mem=4
+//@ props=C11,C05,C12,C13 inst="ILI9341Rgb666 x Serial4Line" bounds="same" timeout=600 mem=4
 h!(c11_d_ili9341_666_s, 20, direct_h::<_, u8, 0>(ILI9341Rgb666, true));
-//@ props=C11,C05,C12,C13 pick=direct:6@C12 inst="ILI9341Rgb666 x Parallel8Bit" bounds="same" timeout=600 mem=4
+//@ props=C11,C05,C12,C13 inst="ILI9341Rgb666 x Parallel8Bit" bounds="same" timeout=600 mem=4
 h!(c11_d_ili9341_666_p8, 20, direct_h::<_, u8, 1>(ILI9341Rgb666, true));
-//@ props=C11,C05,C12,C13 pick=direct:6@C12 inst="ILI9341Rgb666 x Parallel16Bit" bounds="same" timeout=600 mem=4
+//@ props=C11,C05,C12,C13 inst="ILI9341Rgb666 x Parallel16Bit" bounds="same" timeout=600 mem=4
 h!(c11_d_ili9341_666_p16, 20, direct_h::<_, u16, 2>(ILI9341Rgb666, true));
-//@ props=C11,C05,C12,C13 pick=direct:6@C12 inst="ILI9342CRgb565 x Serial4Line" bounds="same" timeout=600 mem=4
+//@ props=C11,C05,C12,C13 inst="ILI9342CRgb565 x Serial4Line" bounds="same" timeout=600 mem=4
 h!(c11_d_ili9342c_565_s, 20, direct_h::<_, u8, 0>(ILI9342CRgb565, true));
-//@ props=C11,C05,C12,C13 pick=direct:6@C12 inst="ILI9342CRgb565 x Parallel8Bit" bounds="same" timeout=600 mem=4
+//@ props=C11,C05,C12,C13 inst="ILI9342CRgb565 x Parallel8Bit" bounds="same" timeout=600 mem=4
 h!(c11_d_ili9342c_565_p8, 20, direct_h::<_, u8, 1>(ILI9342CRgb565, true));
-//@ props=C11,C05,C12,C13 pick=direct:6@C12 inst="ILI9342CRgb565 x Parallel16Bit" bounds="same" timeout=600 mem=4
+//@ props=C11,C05,C12,C13 inst="ILI9342CRgb565 x Parallel16Bit" bounds="same" timeout=600 mem=4
 h!(c11_d_ili9342c_565_p16, 20, direct_h::<_, u16, 2>(ILI9342CRgb565, true));
-//@ props=C11,C05,C12,C13 pick=direct:6@C12 inst="ILI9342CRgb666 x Serial4Line" bounds="same" timeout=600 mem=4
+//@ props=C11,C05,C12,C13 inst="ILI9342CRgb666 x Serial4Line" bounds="same" timeout=600 mem=4
 h!(c11_d_ili9342c_666_s, 20, direct_h::<_, u8, 0>(ILI9342CRgb666, true));
-//@ props=C11,C05,C12,C13 pick=direct:6@C12 inst="ILI9342CRgb666 x Parallel8Bit" bounds="same" timeout=600 mem=4
+//@ props=C11,C05,C12,C13 inst="ILI9342CRgb666 x Parallel8Bit" bounds="same" timeout=600 mem=4
 h!(c11_d_ili9342c_666_p8, 20, direct_h::<_, u8, 1>(ILI9342CRgb666, true));
-//@ props=C11,C05,C12,C13 pick=direct:6@C12 inst="ILI9342CRgb666 x Parallel16Bit" bounds="same" timeout=600 mem=4
+//@ props=C11,C05,C12,C13 inst="ILI9342CRgb666 x Parallel16Bit" bounds="same" timeout=600 mem=4
 h!(c11_d_ili9342c_666_p16, 20, direct_h::<_, u16, 2>(ILI9342CRgb666, true));
-//@ props=C11,C05,C12,C13 pick=direct:6@C12 inst="ILI9486Rgb565 x Serial4Line (unsupported today)" bounds="same" timeout=600 mem=4
+//@ props=C11,C05,C12,C13 inst="ILI9486Rgb565 x Serial4Line (unsupported today)" bounds="same" timeout=600 mem=4
 h!(c11_d_ili9486_565_s, 20, direct_h::<_, u8, 0>(ILI9486Rgb565, false));
-//@ props=C11,C05,C12,C13 pick=direct:6@C12 inst="ILI9486Rgb565 x Parallel8Bit" bounds="same" timeout=600 mem=4
+//@ props=C11,C05,C12,C13 inst="ILI9486Rgb565 x Parallel8Bit" bounds="same" timeout=600 mem=4
 h!(c11_d_ili9486_565_p8, 20, direct_h::<_, u8, 1>(ILI9486Rgb565, true));
-//@ props=C11,C05,C12,C13 pick=direct:6@C12 inst="ILI9486Rgb565 x Parallel16Bit" bounds="same" timeout=600 mem=4
+//@ props=C11,C05,C12,C13 inst="ILI9486Rgb565 x Parallel16Bit" bounds="same" timeout=600 mem=4
 h!(c11_d_ili9486_565_p16, 20, direct_h::<_, u16, 2>(ILI9486Rgb565, true));
-//@ props=C11,C05,C12,C13 pick=direct:6@C12 inst="ILI9486Rgb666 x Serial4Line" bounds="same" timeout=600 mem=4
+//@ props=C11,C05,C12,C13 inst="ILI9486Rgb666 x Serial4Line" bounds="same" timeout=600 mem=4
 h!(c11_d_ili9486_666_s, 20, direct_h::<_, u8, 0>(ILI9486Rgb666, true));
-//@ props=C11,C05,C12,C13 pick=direct:6@C12 inst="ILI9486Rgb666 x Parallel8Bit" bounds="same" timeout=600 mem=4
+//@ props=C11,C05,C12,C13 inst="ILI9486Rgb666 x Parallel8Bit" bounds="same" timeout=600 mem=4
 h!(c11_d_ili9486_666_p8, 20, direct_h::<_, u8, 1>(ILI9486Rgb666, true));
-//@ props=C11,C05,C12,C13 pick=direct:6@C12 inst="ILI9486Rgb666 x Parallel16Bit" bounds="same" timeout=600 mem=4
+//@ props=C11,C05,C12,C13 inst="ILI9486Rgb666 x Parallel16Bit" bounds="same" timeout=600 mem=4
 h!(c11_d_ili9486_666_p16, 20, direct_h::<_, u16, 2>(ILI9486Rgb666, true));
-//@ props=C11,C05,C12,C13 pick=direct:6@C12 inst="ILI9488Rgb565 x Serial4Line" bounds="same" timeout=600 mem=4
+//@ props=C11,C05,C12,C13 inst="ILI9488Rgb565 x Serial4Line" bounds="same" timeout=600 mem=4
 h!(c11_d_ili9488_565_s, 20, direct_h::<_, u8, 0>(ILI9488Rgb565, true));
-//@ props=C11,C05,C12,C13 pick=direct:6@C12 inst="ILI9488Rgb565 x Parallel8Bit" bounds="same" timeout=600 mem=4
+//@ props=C11,C05,C12,C13 inst="ILI9488Rgb565 x Parallel8Bit" bounds="same" timeout=600 mem=4
 h!(c11_d_ili9488_565_p8, 20, direct_h::<_, u8, 1>(ILI9488Rgb565, true));
-//@ props=C11,C05,C12,C13 pick=direct:6@C12 inst="ILI9488Rgb565 x Parallel16Bit" bounds="same" timeout=600 mem=4
+//@ props=C11,C05,C12,C13 inst="ILI9488Rgb565 x Parallel16Bit" bounds="same" timeout=600 mem=4
 h!(c11_d_ili9488_565_p16, 20, direct_h::<_, u16, 2>(ILI9488Rgb565, true));
-//@ props=C11,C05,C12,C13 pick=direct:6@C12 inst="ILI9488Rgb666 x Serial4Line" bounds="same" timeout=600 mem=4
+//@ props=C11,C05,C12,C13 inst="ILI9488Rgb666 x Serial4Line" bounds="same" timeout=600 mem=4
 h!(c11_d_ili9488_666_s, 20, direct_h::<_, u8, 0>(ILI9488Rgb666, true));
-//@ props=C11,C05,C12,C13 pick=direct:6@C12 inst="ILI9488Rgb666 x Parallel8Bit" bounds="same" timeout=600 mem=4
+//@ props=C11,C05,C12,C13 inst="ILI9488Rgb666 x Parallel8Bit" bounds="same" timeout=600 mem=4
 h!(c11_d_ili9488_666_p8, 20, direct_h::<_, u8, 1>(ILI9488Rgb666, true));
-//@ props=C11,C05,C12,C13 pick=direct:6@C12 inst="ILI9488Rgb666 x Parallel16Bit" bounds="same" timeout=600 mem=4
+//@ props=C11,C05,C12,C13 inst="ILI9488Rgb666 x Parallel16Bit" bounds="same" timeout=600 mem=4
 h!(c11_d_ili9488_666_p16, 20, direct_h::<_, u16, 2>(ILI9488Rgb666, true));
-//@ props=C11,C05,C12,C13 pick=direct:6@C12 inst="ST7735s x Serial4Line" bounds="same" timeout=600 mem=4
+//@ props=C11,C05,C12,C13 inst="ST7735s x Serial4Line" bounds="same" timeout=600 mem=4
 h!(c11_d_st7735s_s, 20, direct_h::<_, u8, 0>(ST7735s, true));
-//@ props=C11,C05,C12,C13 pick=direct:6@C12 inst="ST7735s x Parallel8Bit" bounds="same" timeout=600 mem=4
+//@ props=C11,C05,C12,C13 inst="ST7735s x Parallel8Bit" bounds="same" timeout=600 mem=4
 h!(c11_d_st7735s_p8, 20, direct_h::<_, u8, 1>(ST7735s, true));
-//@ props=C11,C05,C12,C13 pick=direct:6@C12 inst="ST7735s x Parallel16Bit" bounds="same" timeout=600 mem=4
+//@ props=C11,C05,C12,C13 inst="ST7735s x Parallel16Bit" bounds="same" timeout=600 mem=4
 h!(c11_d_st7735s_p16, 20, direct_h::<_, u16, 2>(ST7735s, true));
-//@ props=C11,C05,C12,C13 pick=direct:6@C12 inst="ST7789 x Serial4Line" bounds="same" timeout=600 mem=4
+//@ props=C11,C05,C12,C13 inst="ST7789 x Serial4Line" bounds="same" timeout=600 mem=4
 h!(c11_d_st7789_s, 20, direct_h::<_, u8, 0>(ST7789, true));
-//@ props=C11,C05,C12,C13 pick=direct:6@C12 inst="ST7789 x Parallel8Bit" bounds="same" timeout=600 mem=4
+//@ props=C11,C05,C12,C13 inst="ST7789 x Parallel8Bit" bounds="same" timeout=600 mem=4
 h!(c11_d_st7789_p8, 20, direct_h::<_, u8, 1>(ST7789, true));
-//@ props=C11,C05,C12,C13 pick=direct:6@C12 inst="ST7789 x Parallel16Bit" bounds="same" timeout=600 mem=4
+//@ props=C11,C05,C12,C13 inst="ST7789 x Parallel16Bit" bounds="same" timeout=600 mem=4
 h!(c11_d_st7789_p16, 20, direct_h::<_, u16, 2>(ST7789, true));
-//@ props=C11,C05,C12,C13 pick=direct:6@C12 inst="ST7796 x Serial4Line" bounds="same" timeout=600 mem=4
+//@ props=C11,C05,C12,C13 inst="ST7796 x Serial4Line" bounds="same" timeout=600 mem=4
 h!(c11_d_st7796_s, 20, direct_h::<_, u8, 0>(ST7796, true));
-//@ props=C11,C05,C12,C13 pick=direct:6@C12 inst="ST7796 x Parallel8Bit" bounds="same" timeout=600 mem=4
+//@ props=C11,C05,C12,C13 inst="ST7796 x Parallel8Bit" bounds="same" timeout=600 mem=4
 h!(c11_d_st7796_p8, 20, direct_h::<_, u8, 1>(ST7796, true));
-//@ props=C11,C05,C12,C13 pick=direct:6@C12 inst="ST7796 x Parallel16Bit" bounds="same" timeout=600 mem=4
+//@ props=C11,C05,C12,C13 inst="ST7796 x Parallel16Bit" bounds="same" timeout=600 mem=4
 h!(c11_d_st7796_p16, 20, direct_h::<_, u16, 2>(ST7796, true));
-//@ props=C11,C05,C12,C13 pick=direct:6@C12 inst="RM67162 x Serial4Line" bounds="same" timeout=600 mem=4
+//@ props=C11,C05,C12,C13 inst="RM67162 x Serial4Line" bounds="same" timeout=600 mem=4
 h!(c11_d_rm67162_s, 20, direct_h::<_, u8, 0>(RM67162, true));
-//@ props=C11,C05,C12,C13 pick=direct:6@C12 inst="RM67162 x Parallel8Bit" bounds="same" timeout=600 mem=4
+//@ props=C11,C05,C12,C13 inst="RM67162 x Parallel8Bit" bounds="same" timeout=600 mem=4
 h!(c11_d_rm67162_p8, 20, direct_h::<_, u8, 1>(RM67162, true));
-//@ props=C11,C05,C12,C13 pick=direct:6@C12 inst="RM67162 x Parallel16Bit (unsupported today)" bounds="same" timeout=600 mem=4
+//@ props=C11,C05,C12,C13 inst="RM67162 x Parallel16Bit (unsupported today)" bounds="same" timeout=600 mem=4
 h!(c11_d_rm67162_p16, 20, direct_h::<_, u16, 2>(RM67162, false));
-//@ props=C11,C05,C12,C13 pick=direct:6@C12 inst="GC9107 x Serial4Line" bounds="same" timeout=600 mem=4
+//@ props=C11,C05,C12,C13 inst="GC9107 x Serial4Line" bounds="same" timeout=600 mem=4
 h!(c11_d_gc9107_s, 20, direct_h::<_, u8, 0>(GC9107, true));
-//@ props=C11,C05,C12,C13 pick=direct:6@C12 inst="GC9107 x Parallel8Bit" bounds="same" timeout=600 mem=4
+//@ props=C11,C05,C12,C13 inst="GC9107 x Parallel8Bit" bounds="same" timeout=600 mem=4
 h!(c11_d_gc9107_p8, 20, direct_h::<_, u8, 1>(GC9107, true));
-//@ props=C11,C05,C12,C13 pick=direct:6@C12 inst="GC9107 x Parallel16Bit (unsupported today)" bounds="same" timeout=600 mem=4
+//@ props=C11,C05,C12,C13 inst="GC9107 x Parallel16Bit (unsupported today)" bounds="same" timeout=600 mem=4
 h!(c11_d_gc9107_p16, 20, direct_h::<_, u16, 2>(GC9107, false));
-//@ props=C11,C05,C12,C13 pick=direct:6@C12 inst="GC9A01 x Serial4Line" bounds="same" timeout=900 mem=4
+//@ props=C11,C05,C12,C13 inst="GC9A01 x Serial4Line" bounds="same" timeout=900 mem=4
 h!(c11_d_gc9a01_s, 20, direct_h::<_, u8, 0>(GC9A01, true));
-//@ props=C11,C05,C12,C13 pick=direct:6@C12 inst="GC9A01 x Parallel8Bit" bounds="same" timeout=900 mem=4
+//@ props=C11,C05,C12,C13 inst="GC9A01 x Parallel8Bit" bounds="same" timeout=900 mem=4
 h!(c11_d_gc9a01_p8, 20, direct_h::<_, u8, 1>(GC9A01, true));
-//@ props=C11,C05,C12,C13 pick=direct:6@C12 inst="GC9A01 x Parallel16Bit" bounds="same" timeout=900 mem=4
+//@ props=C11,C05,C12,C13 inst="GC9A01 x Parallel16Bit" bounds="same" timeout=900 mem=4
 h!(c11_d_gc9a01_p16, 20, direct_h::<_, u16, 2>(GC9A01, true));
 
 // ---- through the real Builder with a reset pin: reset timeline + programming + fault index
